@@ -354,18 +354,22 @@ func UtxoValidateInsufficientCollateral(
 			totalCollateral.Add(totalCollateral, amount)
 		}
 	}
-	// minCollateral = fee * collateralPercentage / 100
 	fee := tmpTx.Fee()
 	if fee == nil {
 		fee = new(big.Int)
 	}
-	minCollateral := new(
+	// The check is balance * 100 >= fee * collateralPercentage, with no rounding
+	// in the transaction's favour
+	required := new(
 		big.Int,
 	).Mul(fee, new(big.Int).SetUint64(uint64(tmpPparams.CollateralPercentage)))
-	minCollateral.Div(minCollateral, big.NewInt(100))
-	if totalCollateral.Cmp(minCollateral) >= 0 {
+	provided := new(big.Int).Mul(totalCollateral, big.NewInt(100))
+	if provided.Cmp(required) >= 0 {
 		return nil
 	}
+	// minCollateral = ceil(fee * collateralPercentage / 100)
+	minCollateral := new(big.Int).Add(required, big.NewInt(99))
+	minCollateral.Div(minCollateral, big.NewInt(100))
 	// Convert to uint64 for error struct (best effort)
 	var providedU, requiredU uint64
 	if totalCollateral.IsUint64() {
